@@ -493,82 +493,7 @@ func r5(c *core.Ctx, rov, nbe *core.Fn) {
 	if cc == nil {
 		return
 	}
-	blk := &ast.BlockStmt{List: cc.Body}
-	// the pair loop
-	var loop *ast.ForStmt
-	core.Inspect(blk, func(m ast.Node) bool {
-		if f, ok := m.(*ast.ForStmt); ok && loop == nil {
-			loop = f
-		}
-		return loop == nil
-	})
-	if loop == nil {
-		c.Undecidedf("R5.chunk", "hash/loop", cc.Pos(), "no loop in the hash case")
-		return
-	}
-	lb := pat.Expr("_i < int(_n)").Match(info, loop.Cond, nil)
-	if lb == nil {
-		lb = pat.Expr("_i < _n").Match(info, loop.Cond, nil)
-	}
-	if lb == nil {
-		c.Undecidedf("R5.chunk", "hash/loop-bound", loop.Pos(), "hash loop is not `for i := 0; i < int(n); i++`")
-		return
-	}
-	incs := pat.Stmt("_lr.lastReadCount++").FindAll(info, loop.Body, nil)
-	var inc ast.Node
-	if len(incs) == 1 {
-		inc = incs[0]
-	}
-	c.Check("R5.chunk", "hash/count-per-pair", loop.Pos(), inc != nil, "lastReadCount is incremented exactly once per field/value pair read")
-	// break guard
-	var brk *ast.IfStmt
-	core.Inspect(loop.Body, func(m ast.Node) bool {
-		ifs, ok := m.(*ast.IfStmt)
-		if !ok {
-			return true
-		}
-		for _, s := range ifs.Body.List {
-			if b, ok := s.(*ast.BranchStmt); ok && b.Tok == token.BREAK {
-				brk = ifs
-			}
-		}
-		return true
-	})
-	if brk == nil {
-		c.Failf("R5.chunk", "hash/break", loop.Pos(), "the hash loop never breaks: a hash larger than the chunk limit is delivered as one record (the statement promises 16 MiB chunks)")
-	} else {
-		okLast := false
-		okSize := false
-		for _, f := range cfgq.Facts(brk.Cond, true) {
-			if !f.Val {
-				continue
-			}
-			if pat.Expr("_i != int(_n-1)").Match(info, f.Expr, lb) != nil || pat.Expr("_i != int(_n)-1").Match(info, f.Expr, lb) != nil || pat.Expr("_i < int(_n-1)").Match(info, f.Expr, lb) != nil {
-				okLast = true
-			}
-			if b2 := pat.Expr("_b.Len() > _lim").Match(info, f.Expr, nil); b2 != nil {
-				if v, ok := core.IntConst(info, b2["_lim"].(ast.Expr)); ok && v == 16*1024*1024 {
-					okSize = true
-				}
-			}
-		}
-		c.Check("R5.chunk", "hash/count-before-break", brk.Pos(), inc != nil && inc.Pos() < brk.Pos() && isTopLevel(loop.Body, inc),
-			"the pair just read is counted before the chunk is cut: the cut record carries that pair's bytes, so RealMemberCount must include it (otherwise the last field of every non-final chunk is never restored)")
-		c.Check("R5.chunk", "hash/break-not-on-last", brk.Pos(), okLast, "the early break must be excluded on the last pair (remainMember would become 0 while lastReadCount != n: the final chunk is reported as incomplete)")
-		c.Check("R5.chunk", "hash/break-limit", brk.Pos(), okSize, "the chunk limit is `captured bytes > 16 MiB`")
-		rem, _ := pat.Stmt("_lr.remainMember = _n - uint32(_i) - 1").Find(info, brk.Body, lb)
-		c.Check("R5.chunk", "hash/remain-formula", brk.Pos(), rem != nil, "on break remainMember = n - i - 1 pairs are left for the following records (off by one loses or duplicates a pair)")
-	}
-	rst := findIf(info, blk, pat.Expr("_lr.lastReadCount == _n"), lb)
-	okRst := false
-	if rst != nil {
-		n, _ := pat.Stmt("_lr.remainMember = 0").Find(info, rst.Body, nil)
-		okRst = n != nil
-	}
-	c.Check("R5.chunk", "hash/reset-when-complete", cc.Pos(), okRst, "remainMember is reset to 0 once all n pairs were read, so that the next record starts with a type byte")
-	z, _ := pat.Stmt("_lr.lastReadCount = 0").Find(info, blk, nil)
-	c.Check("R5.chunk", "hash/count-reset", cc.Pos(), z != nil, "lastReadCount restarts at 0 for every record")
-
+	r5hash(c, rov, cc)
 	r5cont(c, nbe)
 }
 
